@@ -451,7 +451,7 @@ def rule_fetch_py(ctx, py):
                           "`%s` writes into the fetched data from another source than the engine's buffer: the sample the "
                           "caller sees is not the one the engine recorded (processed initial state, chemostated entries, totals)"
                           % pyfe.src(st)[:60])
-    ctx.floor(R, 4)
+    ctx.floor(R, 2)
 
 
 def pya_atoms(t):
